@@ -104,6 +104,7 @@ pub fn emit(toks: &[&str]) -> String {
 
 /// Runs the real slicec binary ($VH_SLICEC) in a scratch directory with fake generators ($VH_FAKEGEN copied under the given names).
 /// run <dryrun 0|1> <extra opts: -|a;b;c (hex each)> G (<genname>:<hexargs|->:<hexreply|->)* F (<S|R>:<hexname>:<hextext>)*
+///   (F kinds: S source, R reference, X other file, D directory)
 ///   -> exit=<code|signal> || <gen>:<invoked count>:<stdin hex> ... || stdout hex || stderr hex || outdir listing || dump of the same files compiled in-process
 pub fn run(toks: &[&str]) -> String {
     use std::process::Command;
@@ -142,7 +143,16 @@ pub fn run(toks: &[&str]) -> String {
         let name = text_of(parts[1]);
         if let Some(parent) = std::path::Path::new(&name).parent() { let _ = std::fs::create_dir_all(w.join(parent)); }
         std::fs::write(w.join(&name), crate::codec::unhex(parts[2])).unwrap();
-        if parts[0] == "S" { argv.push(name.clone()); options.sources.push(name); } else { argv.push("-R".into()); argv.push(name.clone()); options.references.push(name); }
+        if parts[0] == "S" { argv.push(name.clone()); options.sources.push(name); }
+        else if parts[0] == "R" { argv.push("-R".into()); argv.push(name.clone()); options.references.push(name); }
+        // X: a file that is merely present (e.g. an earlier generated file); D: a directory
+        else if parts[0] == "X" {
+            // an earlier file: given an old modification time, so that the listing can tell whether it was rewritten
+            if let Ok(f) = std::fs::OpenOptions::new().write(true).open(w.join(&name)) {
+                let _ = f.set_modified(std::time::UNIX_EPOCH + std::time::Duration::from_secs(1_000_000_000));
+            }
+        }
+        else if parts[0] == "D" { let _ = std::fs::remove_file(w.join(&name)); std::fs::create_dir_all(w.join(&name)).unwrap(); }
         i += 1;
     } }
     let out = Command::new(&slicec).args(&argv).current_dir(&w).env("FAKEGEN_DIR", dir.join("gens")).env("NO_COLOR", "1").output();
@@ -163,7 +173,8 @@ pub fn run(toks: &[&str]) -> String {
             if path.is_dir() { walk(base, &path, out); } else {
                 let rel = path.strip_prefix(base).unwrap().to_string_lossy().to_string();
                 let data = std::fs::read(&path).unwrap_or_default();
-                out.push(format!("{}={}", hexs(&rel), crate::codec::hex(&data)));
+                let old = e.metadata().ok().and_then(|m| m.modified().ok()).map(|t| t < std::time::UNIX_EPOCH + std::time::Duration::from_secs(1_100_000_000)).unwrap_or(false);
+                out.push(format!("{}={}{}", hexs(&rel), crate::codec::hex(&data), if old { "@old" } else { "" }));
             }
         } }
     }
@@ -176,4 +187,22 @@ pub fn run(toks: &[&str]) -> String {
     let _ = std::env::set_current_dir("/");
     let _ = std::fs::remove_dir_all(&dir);
     format!("{} || {} || {} || {} || {} || {}", status, ginfo.join(" "), crate::codec::hex(&so), crate::codec::hex(&se), listing.join(" "), files.join(" ;; "))
+}
+
+
+/// fileset <hex cwd> (S:<hexarg> | R:<hexarg>)*  ->  (S|R):<hexpath>:<parsed 0|1> ... || diagnostics
+/// compile_from_options in an existing directory tree (C17): which files make up the compilation, in which order, as what.
+pub fn fileset(toks: &[&str]) -> String {
+    let cwd = text_of(toks[0]);
+    if std::env::set_current_dir(&cwd).is_err() { return "?cwd".into(); }
+    let mut options = SliceOptions::default();
+    for t in &toks[1..] {
+        let (k, h) = t.split_once(':').unwrap();
+        if k == "S" { options.sources.push(text_of(h)); } else { options.references.push(text_of(h)); }
+    }
+    let state = slicec::compile_from_options(&options);
+    let files: Vec<String> = state.files.iter().map(|f| format!("{}:{}:{}", if f.is_source { "S" } else { "R" }, hexs(&f.relative_path), if f.module.is_some() || !f.contents.is_empty() { 1 } else { 0 })).collect();
+    let d = state.diagnostics.into_updated(&state.ast, &state.files, &options);
+    let _ = std::env::set_current_dir("/");
+    format!("{} || {}", files.join(" "), show_diags(&d))
 }
